@@ -19,6 +19,8 @@
 #include <verif_hooks.h>
 #include <signal.h>
 #include <errno.h>
+#include <stdbool.h>
+#include <fcntl.h>
 #include <stdio.h>
 #include <stdlib.h>
 #include <string.h>
@@ -70,12 +72,18 @@ static int run_once(const char *text, int oi, int mode, int off0, unsigned char 
   asm_set_offset(al, off0);
   int ret;
   *dest = -1;
+  /* LINERUN_DEBUG: the debug listing switched on (it goes to stdout: silenced while the library runs) */
+  static int dbg = -1, nul = -1;
+  if (dbg < 0) { dbg = getenv("LINERUN_DEBUG") != NULL; if (dbg) nul = open("/dev/null", O_WRONLY); }
+  int keep = -1;
+  if (dbg && nul >= 0) { asm_set_debug(al, true); fflush(stdout); keep = dup(1); dup2(nul, 1); }
   /* errno belongs to the caller and holds whatever an earlier call of anything left there: the result must not depend on it */
   errno = (oi % 3 == 0) ? ERANGE : (oi % 3 == 1) ? EINTR : 0;
   if (mode == 2)
     ret = asm_assemble_string_counting_chunks(al, (char *)text, chunk, dest);
   else
     ret = asm_assemble_str(al, text);
+  if (keep >= 0) { fflush(stdout); dup2(keep, 1); close(keep); }
   *off1 = asm_get_offset(al);
   asm_destroy_instance(al);
   memcpy(out, arena, CAP + 2 * CANARY);
